@@ -163,7 +163,11 @@ def step (st : State) (w : List String) : State × String :=
       let lo := boolStr (aclNext acl false Fam.v4 0x7f000001)
       let doh := String.join (ps.map fun (f, v) => boolStr (aclNext acl false f v))
       let pipelined := if aclNext acl false Fam.v4 0x7f000001 then 3 else 0
-      (st, s!"udp={lo} tcp={lo} tcpp={pipelined} udpx={lo} doh={doh}")
+      -- overlapping requests: the harness picks the LAST allowed and the LAST denied
+      -- peer; with both present the allowed one is answered and the denied one is not
+      let verdicts := ps.map fun (f, v) => aclNext acl false f v
+      let overlap := if verdicts.contains true && verdicts.contains false then "tf" else "-"
+      (st, s!"udp={lo} tcp={lo} tcpp={pipelined} udpx={lo} doh={doh} overlap={overlap}")
     | _, _ => (st, "bad-op")
   | ["chain", "run", scs] =>
     match (scs.splitOn ";").mapM parseScript with
